@@ -21,7 +21,7 @@ CLIENT_TRUST = ["Model.Client hand-written from diam/sm/client.go (handshake, wa
 
 PROPS = {
     "C01": dict(
-        domains=[("codec", "build", 12000, 150000), ("codec", "decode", 6000, 80000), ("codec", "frame", 2000, 40000), ("dict", "mono", 1500, 15000)],
+        domains=[("codec", "build", 12000, 150000), ("codec", "decode", 6000, 80000), ("codec", "frame", 2000, 40000), ("dict", "mono", 1500, 15000), ("alias", "hist", 800, 8000)],
         relevant=["C01:"],
         theorems=['DV.Props.C01.C01_api_avps', 'DV.Props.C01.C01_api_reserialise', 'DV.Props.C01.C01_api_same_tree', 'DV.Props.C01.C01_api_msg', 'DV.Props.C01.C01_wire_counterexample_v4mapped', 'DV.Props.C01.C01_wire_counterexample_other16', 'DV.Props.C01.C01_wire_counterexample_other4', 'DV.Props.C01.C01_wire_partial', 'DV.Props.C01.C01_wire_reads', 'DV.Props.C01.C01_wire_msg', 'DV.Props.C01.C01_gen'],
         gen_obligations=['Gen.HeaderLength', 'Gen.Vbit', 'Gen.rfc868offset', 'Gen.rfc2030offset', 'Gen.typeIds', 'Gen.hdrLayoutEnc = Gen.hdrLayoutDec', 'Gen.available ⊆ Gen.decoderKeys'],
@@ -52,7 +52,7 @@ PROPS = {
         trusted=CODEC_TRUST,
     ),
     "C05": dict(
-        domains=[("stream", "read", 6000, 80000), ("stream", "exhaustive", 1500, 6000), ("conn", "serve", 400, 4000), ("conn", "cnall4", 1, 1), ("conn", "xtalk", 24, 200)],
+        domains=[("stream", "read", 6000, 80000), ("stream", "exhaustive", 1500, 6000), ("conn", "serve", 400, 4000), ("conn", "cnall4", 1, 1), ("conn", "xtalk", 24, 200), ("conn", "rdl", 1, 1)],
         relevant=["C05:"],
         theorems=["DV.Props.C05."+t for t in ["C05_split","C05_frag","C05_one","C05_eof","C05_in_header","C05_by_length","C05_gen"]],
         gen_obligations=["Gen.HeaderLength","Gen.MessageBufferLength","Gen.readMessageCalls","Gen.readBodyGuard","Gen.readBodyLength"],
@@ -108,7 +108,7 @@ PROPS = {
         trusted=CODEC_TRUST,
     ),
     "C08": dict(
-        domains=[("conn", "serve", 500, 6000), ("conn", "multi", 300, 4000), ("conn", "cnall4", 1, 1), ("conn", "accept", 60, 600), ("conn", "burst", 30, 300), ("sctp", "serve", 200, 2000)],
+        domains=[("conn", "serve", 500, 6000), ("conn", "multi", 300, 4000), ("conn", "cnall4", 1, 1), ("conn", "accept", 60, 600), ("conn", "burst", 30, 300), ("sctp", "serve", 200, 2000), ("conn", "bigblock", 1, 1)],
         thorough_extra=[("conn", "cnall5", 1, 1)],
         relevant=["C08:"],
         theorems=["DV.Props.C08."+t for t in ["C08_one_at_a_time","C08_next_after_return","C08_order","C08_all_dispatched","C08_frame","C08_enabled","C08_gen"]],
@@ -133,7 +133,7 @@ PROPS = {
                               "Model.ConnWrite: writer objects and the transports they point at (Server.newConn, response.Write); that each connection allocates its own bufio.Writer is the regenerated fact Gen.connBufferSources"],
     ),
     "C06": dict(
-        domains=[("alias", "leaf", 4000, 60000), ("alias", "hist", 1500, 20000), ("smserver", "hist", 800, 10000), ("reflect", "rt", 600, 6000)],
+        domains=[("alias", "leaf", 4000, 60000), ("alias", "hist", 1500, 20000), ("smserver", "hist", 800, 10000), ("reflect", "rt", 600, 6000), ("smserver", "multi", 400, 4000)],
         relevant=["C06:"],
         theorems=["DV.Props.C06."+t for t in ["C06_owned","C06_unchanged","C06_private_buffer","C06_gen","C06_current","C06_alias_counterexample"]],
         gen_obligations=["Gen.sliceKinded","Gen.decoderAliasing","Gen.groupedAVPFields","Gen.bodyBuffer","Gen.syncPools"],
